@@ -271,15 +271,19 @@ def gen_popen(r, sid, focus=None):
     # a one-hour wait makes 36000 iterations of 4 calls
     longest = max([int(x[2:]) for x in names if x.startswith("wt")] + [0])
     maxcalls = 2000 + 60 * len(names) + 5 * (longest // (100 * MS) + 40) * max(1, sum(1 for x in names if x.startswith("wt")))
+    # a signal handler of the caller interrupts the k-th blocking waitpid (EINTR): an error, never a status
+    intr = 0
+    if "wait" in names and r.chance(1, 4):
+        intr = 1
     text = "\n".join([
         "scn %s" % sid,
-        "popen %s %d %s %d" % ("never" if te is None else te, raw, "never" if reap is None else reap, dies),
+        "popen %s %d %s %d %d" % ("never" if te is None else te, raw, "never" if reap is None else reap, dies, intr),
         "choices %s" % (",".join(str(c) for c in choices) if choices else "-"),
         "maxcalls %d" % maxcalls,
         "ops %s" % ";".join(names),
     ])
     return {"id": sid, "kind": "popen", "te": te, "raw": raw, "expect": expect, "reap": reap, "dies": dies,
-            "names": names, "text": text}
+            "names": names, "text": text, "intr": intr}
 
 
 # ------------------------------------------------------------------ running
@@ -532,6 +536,7 @@ def monitors_popen(s, drv, rep):
     reported = None
     finished_at_op = None
     killed_at = None
+    intr_seen = False
     bogus_report = False    # termination was "observed" while the child was alive and unreaped
     found_reaped = None     # index of the first query that ran a status check after somebody else had reaped the child
     for i, o in enumerate(ops):
@@ -572,7 +577,10 @@ def monitors_popen(s, drv, rep):
             reported = val
             finished_at_op = i
         if is_query and val.startswith("err:"):
-            fails["C09"].append("op#%d %s returned an error (%s)" % (i + 1, name, val))
+            if val == "err:4" and s.get("intr") and "waitpid(0)" in o["log"] and not intr_seen:
+                intr_seen = True          # the injected EINTR: an error is the right answer, the handle stays as it was
+            else:
+                fails["C09"].append("op#%d %s returned an error (%s)" % (i + 1, name, val))
         if is_query and name != "status" and found_reaped is None and reap is not None and nwait >= 1 and t0 >= reap:
             found_reaped = i
         # C10: signalling
